@@ -804,7 +804,9 @@ def check(ctx):
     defaults_and_passthrough(ctx, o6)
     o7 = ctx.shared('c01', 'C01.5', 'C19.7', 'a periodic sensor asks for its next measurement at now + interval: the event queue must queue it for exactly that time '
                     '(a queue that rounds or clamps requested times moves every measurement off the k-fold sum of the interval)')
-    return [o1, o2, o3, o4, o5, o6, o7]
+    o8 = ctx.shared('c20', 'C20.4', 'C19.8', 'a sensor starts measuring in initialize(): every asset is initialised exactly once, also a sensor that another asset creates while '
+                    'the assets are being initialised (it would never take a measurement)')
+    return [o1, o2, o3, o4, o5, o6, o7, o8]
 
 
 CLAIM = {
